@@ -551,7 +551,9 @@ impl<'a> Engine<'a> {
                 println!("  NOTE[{}] {}", n.prop, n.msg);
             }
         }
-        if (self.stats.samples.len() < 3 && nontrivial && !any && self.stats.runs % 97 == 1) || (self.stats.samples.is_empty() && nontrivial) {
+        let concurrent_prop = matches!(self.args.prop.as_str(), "C03" | "C08" | "C09");
+        let good_sample = !concurrent_prop || rec.decisions >= 2;
+        if good_sample && ((self.stats.samples.len() < 3 && nontrivial && !any && self.stats.runs % 97 == 1) || (self.stats.samples.is_empty() && nontrivial)) {
             self.stats.samples.push(obj(&[
                 ("case", esc(&case_name(cx.case))),
                 ("program", esc(cx.case.prog.text)),
